@@ -559,6 +559,7 @@ CHECK = Check(
         "numbers within 128 behind the highest received; recovery family: every packet lost between received ones is NACKed "
         "and resent (RTX with the RTX SSRC and OSN when negotiated, else verbatim) and every frame between the first and the "
         "trailing ones reaches the decoder exactly once. Non-trivial = packets were lost and frames were delivered."
+        " Family outage: 45-70 frames of 2-8 packets with one outage of 90-135 packets (around the jitter buffer restart threshold 100 and the 128-packet NACK window), everything delivered afterwards. A third of all cases run over a path whose datagram send suspends."
     ),
     families=[
         Family("safety", run_video, lambda tier: video_case(tier, recovery=False), quick=700, thorough=30000, min_shard=10),
